@@ -374,4 +374,30 @@ theorem fqPoll_progress (fuel : Nat) (ps : Pipes) (sid : Nat) (s : Socket) (hpd 
               rw [this]; exact hitems0
 
 
+
+/-- what the application got for every message consumed, over any history: the message as the socket type presents it
+(`deliver`), or one error when the type's envelope rule rejects it — nothing else ever enters the log -/
+theorem RecvRun.log_spec {t : SockType} {ps0 : Pipes} {m0 : Streams} {ps : Pipes} {m : Streams}
+    {taken : Ident → List Item} {rev : Nat → Bytes} {log : List (Ident × Msg × POut)}
+    (h : RecvRun t ps0 m0 ps m taken rev log) :
+    ∀ e ∈ log, (∃ r, e.2.2 = .ready (.okMsg r) ∧ deliver t e.1 e.2.1 = some r) ∨
+               (∃ x, e.2.2 = .ready (.err x) ∧ deliver t e.1 e.2.1 = none) := by
+  induction h with
+  | init => intro e he; cases he
+  | poll _ _ _ _ _ ih => exact ih
+  | msg o k w _ _ _ _ ho ih =>
+    intro e he
+    rcases List.mem_append.mp he with he | he
+    · exact ih e he
+    · simp only [List.mem_singleton] at he
+      subst he
+      cases o with
+      | pending => exact absurd ho (by simp)
+      | ready v =>
+        cases v with
+        | okMsg r => exact .inl ⟨r, rfl, ho⟩
+        | err x => exact .inr ⟨x, rfl, ho⟩
+        | _ => exact absurd ho (by simp)
+  | reveal _ _ _ _ ih => exact ih
+
 end Zmq.W
